@@ -61,7 +61,11 @@ class Spec:
     routing = True
 
     def sizes(self, tier):
-        return st.integers(2, 9) if tier == "quick" else st.one_of(st.integers(2, 12), st.integers(2, 24))
+        # mostly small (cheap, shrinkable), occasionally a size from the generators' tables / beyond
+        big = st.sampled_from([15, 20, 33, 50])
+        if tier == "quick":
+            return st.one_of(st.integers(2, 9), st.integers(2, 9), st.integers(2, 9), st.integers(2, 9), st.integers(2, 9), big)
+        return st.one_of(st.integers(2, 12), st.integers(2, 24), st.integers(2, 12), big, st.sampled_from([75, 100]))
 
     def cfg(self, tier):
         return self.sizes(tier).map(lambda n: {"n": n})
